@@ -15,9 +15,13 @@ func verifByteSum(data []byte) uint64 {
 }
 
 func Verif_C13_weight_public() {
-	c := verifCase(3)
+	c := verifCase(4)
 	if c == 2 {
 		verifC13BelowMinimum()
+		return
+	}
+	if c == 3 {
+		verifC13Negative()
 		return
 	}
 	r := []int{100, 150}[c]
@@ -78,4 +82,39 @@ func verifC13BelowMinimum() {
 	if w == 1 {
 		verifReach("weight-1-present")
 	}
+}
+
+// case 3: CONCRETE negative weights and replica counts (the callers - cache.New,
+// kv.New - pass a configured weight straight through, and the library treats a
+// negative configured weight as 0 elsewhere).  The symbolic weight of case 0/1
+// reaches below zero too, but a length or capacity computed from it is only
+// followed by the engine while it stays a small non-negative number; a concrete
+// value goes through whatever the code computes from it.  A node added that way
+// behaves like a node of weight 0: the call returns, the node gets no virtual
+// node and receives no key, and every other assignment stays put.
+func verifC13Negative() {
+	h := NewCustomConsistentHash(100, verifByteSum)
+	withOther := verifChoose("otherNode", 2) == 1
+	if withOther {
+		h.Add("node-b")
+	}
+	before := len(h.keys)
+	n0, ok0 := h.Get("some-key")
+	neg := []int{-1, -3, -50, -100, -101}[verifChoose("negative", 5)]
+	_, panicked := verifExpectPanic(func() {
+		if verifChoose("via", 2) == 0 {
+			h.AddWithWeight("node-a", neg)
+		} else {
+			h.AddWithReplicas("node-a", neg)
+		}
+	})
+	verifAssert(!panicked, "adding a node with a negative weight or replica count returns (it is a node without virtual nodes)")
+	if panicked {
+		return
+	}
+	verifAssert(len(h.keys) == before, "a node added with a negative weight gets no virtual node")
+	n1, ok1 := h.Get("some-key")
+	verifAssert(ok1 == ok0 && n1 == n0, "a node added with a negative weight receives no key and moves no key")
+	verifAssert(ok1 == withOther, "lookup reports absence exactly when no node of positive weight is present")
+	verifReach("negative-weight")
 }
